@@ -38,6 +38,30 @@ CHECKS = {
         "The only place where thread completion order can reach the loaded document (the accumulator merged after the parallel phase) is enumerated exhaustively per file via the hook; real interleavings are sampled with delays and the distinct completion orders observed are reported; every digest is compared with the no-default-features build.",
         "Hook H1 is add-only and compiled only with --cfg lopdf_verif. Interleavings inside the parsing of a single object are sampled, not enumerated.",
     ),
+    "C09": (
+        "exploration", "DESIGN.md §4 C09",
+        "runtime monitor: reference encoders generate inputs, plaintext equality oracle on lopdf's decoders, Length bookkeeping assertions; exhaustive sweeps of Paeth triples, Sub/Up/Avg pairs and ASCII85 final groups",
+        "Plaintexts are encoded by independent reference encoders through every chain of 1..3 filters with every predictor geometry and both DecodeParms forms and must come back exactly from decompressed_content/get_plain_content/decompress; compress/decompress/set_content round trips keep Length == content length and never lengthen; decode_row is compared with the PNG definition on all 2^24 Paeth triples.",
+        "Trusted: reference codecs (zlib/base64 cross-checked during development; ISO LZW example).",
+    ),
+    "C10": (
+        "exploration", "DESIGN.md §4 C10",
+        "runtime monitor: lock-step graph-renaming oracle over (document before, document after) renumber_objects_with(start)",
+        "Random reference graphs (page ids out of page order, colliding old/new numbers, generations, shared/cyclic/dangling references, trailer references, bookmarks) are renumbered by the real code and a lock-step walk from both trailers checks a consistent injective renaming, equal referents, dangling-stays-dangling, dense numbering, max_id, page order and bookmark targets.",
+        "Known finding: dangling references can start to resolve (listed in known_findings.json).",
+    ),
+    "C11": (
+        "exploration", "DESIGN.md §4 C11",
+        "runtime monitor: per-step before/after snapshot oracle (operation write sets, fresh ids, reference-freeness after deletion, exact prune set) plus position-keyed page/content/resource model, over seeded programs of editing calls",
+        "Programs of up to 40 public editing calls with random arguments run on generated documents (some loaded from reference-writer files); after every step the state is compared with a snapshot taken before the call under the operation's write set and with the edit model (page list, page content, Count invariant, resources in effect).",
+        "Trusted: model readers over the abstract document; delete/set aim at non-page-tree objects.",
+    ),
+    "C17": (
+        "exploration", "DESIGN.md §4 C17",
+        "runtime monitor: bookmark-forest model vs the objects created by build_outline (link-consistency walker) and vs get_toc() before and after save+load",
+        "Random bookmark forests with distinct Unicode titles and zero-page parents go through add_bookmark -> adjust_zero_pages -> build_outline -> get_toc and again after save_to + load_mem; the oracle walks First/Last/Next/Prev/Parent in lock-step with the model and compares the pre-order (title, level, page) list.",
+        "Titles are pairwise distinct (quantifier); leaf bookmarks name real pages.",
+    ),
     "C12": (
         "exploration", "DESIGN.md §4 C12",
         "runtime monitor: depth-first reference model of generated page trees compared with page_iter()/get_pages() inside isolated workers; process monitor for malformed variants",
